@@ -177,6 +177,32 @@ fn c02_counting_front_ends_bounded() {
     assert!(want.population() == len && want.successes() <= len);
     kani::cover!(len == 4 && want.successes() == 2);
 }
+// ---- C02 / C09 (BOUNDED, batches of length <= 3): extend / extend_if on a state that ALREADY holds observations add the
+// batch's counts to it (every (population, successes) the state may hold; the loops themselves are verified for every length by
+// the Verus obligations Stats::extend / Stats::extend_if)
+#[kani::proof]
+#[kani::unwind(5)]
+fn c02_extend_accumulates_on_nonempty_state_bounded() {
+    let s0 = Stats { population: kani::any(), successes: kani::any() };
+    kani::assume(s0.population < usize::MAX / 4 && s0.successes <= s0.population);
+    let data: [bool; 3] = kani::any();
+    let len: usize = kani::any();
+    kani::assume(len <= 3);
+    let v: Vec<bool> = data[..len].to_vec();
+    let mut k = 0;
+    let mut i = 0;
+    while i < len { if data[i] { k += 1; } i += 1; }
+    let mut a = s0;
+    a.extend(&v);
+    assert!(a.population() == s0.population + len && a.successes() == s0.successes + k, "extend on a non-empty state");
+    let mut b = s0;
+    b.extend_if(&v, |x| *x);
+    assert!(b.population() == s0.population + len && b.successes() == s0.successes + k, "extend_if on a non-empty state");
+    let mut c = s0;
+    c.extend_if(&v, |x| !*x);
+    assert!(c.population() == s0.population + len && c.successes() == s0.successes + (len - k), "extend_if with the complementary predicate");
+    kani::cover!(s0.successes > 0 && len == 3 && k == 2);
+}
 #[kani::proof]
 fn c09_proportion_stats_merge_exact() {
     let (a, b, c): (Stats, Stats, Stats) = (
